@@ -37,7 +37,8 @@ def generate(ctx):
         yield {"kind": kind, "dt": dt, "steps": rng.choice([1, 2, 7, 40, 120, 300, 300, rng.randint(1, 350)]), "refrac_steps": rsteps,
                "compensate": comp, "frequency": fmax, "shape": list(shape), "online": rng.random() < 0.4,
                "module": rng.random() < 0.5, "seed": rng.randrange(1 << 31),
-               "zeros": rng.choice(["some", "some", "all", "none"]), "ones": rng.random() < 0.6}
+               "zeros": rng.choice(["some", "some", "all", "none"]), "ones": rng.random() < 0.6,
+               "reconfigure": rng.random() < 0.35}
     yield from _saturated(rng, 400 if ctx.tier == "thorough" else 12)
     # silence at zero intensity is a statement about every draw of the generator: very many zero-intensity element-steps
     for i in range(320 if ctx.tier == "thorough" else 24):
@@ -88,7 +89,31 @@ def _run(desc, x, gen):
         out = nf.inhomogeneous_poisson_bernoulli_approx(f * xs, dt, generator=gen)
         return out, None
     if desc["module"]:
-        if kind == "exp_interval":
+        if desc.get("reconfigure"):
+            # the same configuration reached through the documented property setters of the encoder module
+            g0 = torch.Generator().manual_seed(1)
+            if kind == "exp_interval":
+                enc = neural.HomogeneousPoissonEncoder(3, 1.0, 5.0, refrac=None, compensate=False, generator=g0)
+            elif kind == "bernoulli":
+                enc = neural.HomogeneousPoissonApproxEncoder(3, 1.0, 5.0, generator=g0)
+            else:
+                enc = neural.PoissonIntervalEncoder(3, 1.0, 5.0, generator=g0)
+            if desc["seed"] % 2:
+                enc.dt = dt
+                enc.steps = steps
+            if kind == "exp_interval":
+                enc.refrac = refrac
+                enc.frequency = f
+            else:
+                enc.frequency = f
+            if not desc["seed"] % 2:
+                # the step time assigned AFTER an explicit refractory period: the period stays what was configured
+                enc.dt = dt
+                enc.steps = steps
+            if kind == "exp_interval":
+                enc.compensated = desc["compensate"]     # last: its validity test needs the final frequency and period
+            enc.generator = gen
+        elif kind == "exp_interval":
             enc = neural.HomogeneousPoissonEncoder(steps, dt, f, refrac=refrac, compensate=desc["compensate"], generator=gen)
         elif kind == "bernoulli":
             enc = neural.HomogeneousPoissonApproxEncoder(steps, dt, f, generator=gen)
@@ -125,6 +150,9 @@ def run_case(ctx, desc):
         ctx.count("sampled." + kind)
         ctx.sample({**desc, "inputs": x.tolist()})
     opk = f"{kind}.{'online' if desc['online'] else 'offline'}"
+    if desc.get("reconfigure") and desc["module"] and kind != "inhomogeneous":
+        ctx.count("setter_configured_encoders")
+        opk += ".setter_configured"
     outs = []
     for rep in range(2):
         gen = torch.Generator().manual_seed(desc["seed"])
